@@ -32,6 +32,11 @@ One(a, b, c) == (IF a THEN 1 ELSE 0) + (IF b THEN 1 ELSE 0) + (IF c THEN 1 ELSE 
 Trichotomy(i, j) == SameFam(i, j) =>
    /\ Bool(Cell(i, j).lt) /\ Bool(Cell(i, j).gt)
    /\ One(Is(Cell(i, j).lt), Is(Cell(i, j).eq), Is(Cell(i, j).gt))
+(* an int and a float: whenever the comparison is answered at all (x <=> y does not raise), exactly one of <, ==, > holds *)
+Numeric(i, j) == {Vals[i].fam, Vals[j].fam} = {"int", "float"}
+MixedTrichotomy(i, j) == (Numeric(i, j) /\ Cell(i, j).cmp # "E" /\ ~Vals[i].nan /\ ~Vals[j].nan) =>
+   /\ Bool(Cell(i, j).lt) /\ Bool(Cell(i, j).gt)
+   /\ One(Is(Cell(i, j).lt), Is(Cell(i, j).eq), Is(Cell(i, j).gt))
 Unions(i, j) == SameFam(i, j) =>
    /\ (Is(Cell(i, j).le) <=> (Is(Cell(i, j).lt) \/ Is(Cell(i, j).eq)))
    /\ (Is(Cell(i, j).ge) <=> (Is(Cell(i, j).gt) \/ Is(Cell(i, j).eq)))
